@@ -8,7 +8,7 @@
                 header of fcppt.options together          must be ok
      ctor       outcome of constructing shape s: "ok" or the exception class
                     WellFormed(p)  => "ok";  otherwise one of IllKinds(p)
-     parse      fcppt::options::parse(parser, argv): ok / rec
+     parse      fcppt::options::parse(parser, argv): ok / rec   (or exc: an exception left the call)
      parse_help fcppt::options::parse_help(default_help_switch(), parser, argv): ok / help / rec
                     ok, help and the record must be the ones of Parse / ParseHelp (every value position
                     of a record is itself a record, see Leaf in Options.tla, so a structurally
@@ -71,6 +71,10 @@ RawReasons(r) ==
          IF ill = {} THEN (IF r.ctor = "ok" THEN {} ELSE {"well-formed-definition-rejected"})
          ELSE IF r.ctor = "ok" THEN {"ill-formed-definition-accepted"}
          ELSE IF r.ctor \in ill THEN {} ELSE {"unexpected-exception-type"}
+    [] r.f \in {"usage", "run", "parse", "parse_help"} /\ "exc" \in DOMAIN r ->
+         (* parse / parse_help "return" a result (an error or a record), Parser::parse returns a
+            parse_result, usage() a string: an exception leaving one of them is explained by no rule *)
+         IF WellFormed(Shapes[r.s].p) THEN {"throws-an-exception"} ELSE {}
     [] r.f = "usage" -> IF WellFormed(Shapes[r.s].p) THEN UsageReasons(r.lines, Shapes[r.s].p) ELSE {}
     [] r.f = "run" ->
          IF ~ArgvOK(r) THEN {"HARNESS-unknown-token"}
@@ -109,7 +113,7 @@ Observed(S) == {"OBS:" \o w : w \in S}
 
 OptionsReasons(r) ==
   (IF InScope(r) THEN RawReasons(r) ELSE Observed(RawReasons(r)))
-  \cup (IF r.f = "parse_help" /\ InRange(r) /\ ArgvOK(r) /\ WellFormed(Shapes[r.s].p) /\ Shapes[r.s].help
+  \cup (IF r.f = "parse_help" /\ InRange(r) /\ "exc" \notin DOMAIN r /\ ArgvOK(r) /\ WellFormed(Shapes[r.s].p) /\ Shapes[r.s].help
         THEN Observed(HelpTextReasons(r, ParseHelp(Shapes[r.s].p, HelpSwitchOf(Shapes[r.s]), r.a), Shapes[r.s].p))
         ELSE {})
 =============================================================================
